@@ -51,6 +51,10 @@ structure Node where
   keysMap : List (Bytes × Nat)
   oplogValid : Bool
   fs : Fs := []
+  /-- cluster simulation: a command that reaches `start_election` records the request instead of
+  running the election to its end; the election then proceeds as a coroutine (`Model/Election.lean`) -/
+  deferElection : Bool := false
+  electionRequested : Bool := false
 deriving Repr, Inhabited
 
 /-- `Databases::next_database_id`: one past the largest database id in use -/
@@ -233,6 +237,7 @@ def Node.electionWin (n : Node) : Node × List Ev :=
 call runs (single-node driver): with more than one member the candidacy is enqueued, never
 registered as pending, and the call claims the election after the registration wait. -/
 def Node.startElection (n : Node) : Node × List Ev :=
+  if n.deferElection then ({ n with electionRequested := true }, []) else
   if n.members.length ≤ 1 then n.electionWin
   else
     let (n, ev1) := n.replicateWeb (b!"election candidate " ++ Bytes.ofNat n.pid ++ [32] ++ n.addr)
